@@ -667,7 +667,7 @@ Definition has_float (l : list (spec * aval)) : bool :=
 (* the argument text of replay shows the values passed (or nothing at all when they cannot fit) *)
 (* a text that (nearly) fills replay's 1 KiB buffer may stop early: every value shown completely must be right, the
    last one may be cut *)
-Definition TEXT_CUT : N := 1000.
+Definition TEXT_CUT : N := 900.      (* a piece is at most ARG_STR_MAX + 2 characters: a cut text is longer than 1023 - 100 *)
 Fixpoint match_cut (l : list (spec * aval)) (txt : list N) (first : bool) : bool :=
   match l with
   | [] => match txt with [] => true | [41] => true | _ => false end
